@@ -203,11 +203,10 @@ fn extend_literal_func(len: usize, kind: &oq3_lexer::LiteralKind) -> (&str, Synt
             terminated,
             consecutive_underscores,
         } => {
-            // FIXME. Both errors at once are possible but not handled.
+            // Both errors at once are possible. Only one message fits: a missing terminator is
+            // reported first (it used to be that neither was).
             if !terminated {
-                if !consecutive_underscores {
-                    err = "Missing trailing `\"` symbol to terminate the bitstring literal";
-                }
+                err = "Missing trailing `\"` symbol to terminate the bitstring literal";
             } else if consecutive_underscores {
                 err = "Consecutive underscores not allowed in bitstring literal";
             }
